@@ -36,6 +36,8 @@ Definition go_put16 (l : list Z) (v : Z) : list Z := (v / 256) mod 256 :: v mod 
 Definition go_copy (dst : list Z) (lo : Z) (src : list Z) : list Z :=
   let n := Nat.min (length dst - Z.to_nat lo) (length src) in
   firstn (Z.to_nat lo) dst ++ firstn n src ++ skipn (Z.to_nat lo + n) dst.
+(* n := copy(dst[lo:], src): the number of bytes copied *)
+Definition go_copy_n (dst : list Z) (lo : Z) (src : list Z) : Z := Z.min (go_len dst - lo) (go_len src).
 
 (* for i, c := range l { body }: the body maps the loop state to the next state (inl) or to the
    function's result (inr, an early return); None is a panic *)
@@ -93,3 +95,9 @@ Definition go_uvarint_enc (v : Z) : list Z := uvarint_bytes 10 v.
 Definition go_uvarint_len (v : Z) : Z := go_len (go_uvarint_enc v).
 (* binary.PutUvarint(dst[lo:], v) (the translator emits the condition under which it does not panic) *)
 Definition go_put_uvarint (dst : list Z) (lo v : Z) : list Z := go_copy dst lo (go_uvarint_enc v).
+
+(* n := copy(dst[lo:hi], src): at most hi - lo bytes *)
+Definition go_copy_to_n (dst : list Z) (lo hi : Z) (src : list Z) : Z := Z.min (hi - lo) (go_len src).
+Definition go_copy_to (dst : list Z) (lo hi : Z) (src : list Z) : list Z :=
+  let n := Z.to_nat (go_copy_to_n dst lo hi src) in
+  firstn (Z.to_nat lo) dst ++ firstn n src ++ skipn (Z.to_nat lo + n) dst.
